@@ -181,7 +181,13 @@ def worker_cases(scene):
     return out
 
 
+HANGS = []      # ops that hung a worker (compiled loop that never returns): reported in the evidence
+
+
 def run_worker(cases, tag="impl", timeout=900):
+    """run the worker cases in parallel processes.  A worker that dies (killed by its monitor
+    because a compiled loop never returned, or crashed) is re-run one case per process, and a
+    case that dies again one op per process; ops that die get exc = PROCESS-HANG / PROCESS-CRASH."""
     nwk = min(cm.NCPU, max(1, len(cases) // 6))
     chunks = [cases[i::nwk] for i in range(nwk)]
     res = cm.run_impl_parallel(PID, "c12", [dict(cases=c) for c in chunks], timeout=timeout, tag=tag)
@@ -191,23 +197,24 @@ def run_worker(cases, tag="impl", timeout=900):
         if rr["status"] == "ok":
             for i, x in zip(idxs, rr["result"]["results"]):
                 out[i] = x
-        else:
-            # a worker died (watchdog on a hung compiled loop, crash): one process per case and per op
-            singles = cm.run_impl_parallel(PID, "c12", [dict(cases=[c]) for c in ch], timeout=300, tag=tag + f"_iso{w}_")
-            for i, sgl, c in zip(idxs, singles, ch):
-                if sgl["status"] == "ok":
-                    out[i] = sgl["result"]["results"][0]
+            continue
+        singles = cm.run_impl_parallel(PID, "c12", [dict(cases=[c]) for c in ch], timeout=300, tag=tag + f"_iso{w}_")
+        for i, sgl, c in zip(idxs, singles, ch):
+            if sgl["status"] == "ok":
+                out[i] = sgl["result"]["results"][0]
+                continue
+            per_op = cm.run_impl_parallel(PID, "c12", [dict(cases=[dict(c, ops=[o])]) for o in c["ops"]], timeout=120,
+                                          tag=tag + f"_op{w}_")
+            out[i] = []
+            for o, po in zip(c["ops"], per_op):
+                if po["status"] == "ok":
+                    out[i].append(po["result"]["results"][0][0])
                 else:
-                    per_op = cm.run_impl_parallel(PID, "c12", [dict(cases=[dict(c, ops=[o])]) for o in c["ops"]], timeout=120,
-                                                  tag=tag + f"_op{w}_")
-                    out[i] = []
-                    for o, po in zip(c["ops"], per_op):
-                        if po["status"] == "ok":
-                            out[i].append(po["result"]["results"][0][0])
-                        else:
-                            hung = po["status"] == "timeout" or po.get("rc") == 3
-                            out[i].append(dict(fn=o["fn"], exc="PROCESS-HANG" if hung else "PROCESS-CRASH",
-                                               exc_msg=f"rc={po.get('rc')} {po.get('log', '')[-200:]}"))
+                    hung = po["status"] == "timeout" or po.get("rc") in (-9, 137)
+                    out[i].append(dict(fn=o["fn"], exc="PROCESS-HANG" if hung else "PROCESS-CRASH",
+                                       exc_msg=f"rc={po.get('rc')} {po.get('log', '')[-200:]}"))
+                    if hung:
+                        HANGS.append(dict(op=o, c1=c["c1"], c2=c["c2"], same_object=c.get("same_object", False)))
     return out
 
 
@@ -358,13 +365,21 @@ def judge_narrow(R, scene, res, T, member_queue):
                             fail(f"{base}: {vname}: one form is clipped (MAX_FLOAT) but the other reports d={dd!r} < sqrt(max_distance_squared)",
                                  variant=vname, fn=base)
                     continue
+                if "contact" in a0:
+                    # gjk_nesterov_accelerated[_primitives]: in contact the second value is a sentinel
+                    # (-1 - inflation), not a distance; only the flag is specified
+                    if a0["contact"] or av["contact"]:
+                        if clear:
+                            T.hit(f"cmp_bool:{base}")
+                            if a0["contact"] != av["contact"]:
+                                fail(f"{base}: {vname}: contact flag {av['contact']} vs {a0['contact']} in a clear {clear} scene",
+                                     variant=vname, fn=base)
+                        continue
                 T.hit(f"cmp_d:{base}")
                 if abs(dv - mp["s"] * d0) > tol:
                     fail(f"{base}: {vname}: distance {dv!r} but {mp['s']!r} * {d0!r} = {mp['s'] * d0!r} expected (tolerance {tol:.3g})",
                          variant=vname, fn=base)
                     continue
-                if "contact" in a0 and clear and a0["contact"] != av["contact"]:
-                    fail(f"{base}: {vname}: contact flag {av['contact']} vs {a0['contact']} in a clear {clear} scene", variant=vname, fn=base)
                 if a0.get("a") is None or av.get("a") is None:
                     continue
                 pa0, pb0 = np.array(a0["a"]), np.array(a0["b"])
@@ -666,6 +681,8 @@ def run(tier, seed, replay=None):
                 scenes.append(json.loads(f.read_text())["case"])
         n_nar = 230 if tier == "quick" else 2600
         per_fn = 24 if tier == "quick" else 260
+        if cm.os.environ.get("C12_SCENES"):            # development aid only
+            n_nar, per_fn = (int(x) for x in cm.os.environ["C12_SCENES"].split(","))
         for _ in range(n_nar):
             sc = gen_scene(R.rng, tier)
             sc["dirs"] = [nw.rand_unit(R.rng, R.rng.choice(["random", "lattice"])).tolist() for _ in range(2)]
@@ -683,7 +700,11 @@ def run(tier, seed, replay=None):
         for wc in worker_cases(sc):
             wcases.append(wc)
             owner.append(i)
+    timing = {}
+    t_ph = cm.time.time()
     wres = run_worker(wcases) if wcases else []
+    timing["collider_workers"] = round(cm.time.time() - t_ph, 1)
+    t_ph = cm.time.time()
     member_queue = []
     all_fails = []
     distinct = set()
@@ -700,6 +721,8 @@ def run(tier, seed, replay=None):
         hist[sc["meta"].get("stream", "corpus")] = hist.get(sc["meta"].get("stream", "corpus"), 0) + 1
         for f in fs:
             all_fails.append((sc, f))
+    timing["collider_judging"] = round(cm.time.time() - t_ph, 1)
+    t_ph = cm.time.time()
     # membership fallbacks: one coqc batch with the proven checker
     if member_queue:
         exprs = []
@@ -714,6 +737,8 @@ def run(tier, seed, replay=None):
         except RuntimeError as e:
             R.corr_broken.append(f"membership checker evaluation failed: {str(e)[:300]}")
 
+    timing["membership_coq"] = round(cm.time.time() - t_ph, 1)
+    t_ph = cm.time.time()
     # ------------------------------------------------------------------ primitives
     pcases, pown = [], []
     for i, sc in enumerate(prim):
@@ -734,6 +759,7 @@ def run(tier, seed, replay=None):
         for f in fs:
             all_fails.append((sc, f))
 
+    timing["primitives"] = round(cm.time.time() - t_ph, 1)
     R.cov["evaluations"] = len(wcases) + len(pcases)
     R.cov["scenes"] = dict(colliders=len(nar), primitives=len(prim))
     R.cov["distinct_nontrivial"] = len(distinct)
@@ -749,4 +775,10 @@ def run(tier, seed, replay=None):
         if seen <= 8:
             R.failure(f["what"], sc, site=f.get("fn"))
     R.cov["failures_total"] = len(all_fails)
+    R.cov["failure_list"] = [f["what"][:300] for _, f in all_fails[:60]]
+    R.cov["timing_s"] = timing
+    if HANGS:
+        R.cov["hung_ops"] = HANGS[:5]
+        R.notes.append(f"{len(HANGS)} op(s) never returned (compiled loop; worker killed by its monitor): not a C12 verdict, judged by "
+                       "C19; the comparisons involving them are counted under skip_raised")
     return R.finish()
